@@ -540,8 +540,30 @@ func coordinatorMain(chk Check, o *Options) int {
 					fmt.Printf("note: run %d reproduces only after %d earlier run(s) of its worker in the same process: the code under test keeps state across calls\n", fv.Run, len(rf.History))
 				}
 			}
+			if code == 3 && len(rf.History) > 0 {
+				// The fresh process does violate the property at this run, but in another way than the worker
+				// saw (state shared between calls was corrupted differently, e.g. because the worker had been
+				// restarted after a crash and carried a shorter history). What is reported must be what the
+				// replay file reproduces: adopt the class the fresh process shows, and require it twice.
+				if m := regexp.MustCompile(`replay: different violation class (\S+) \(expected [^)]*\): (.*)`).FindStringSubmatch(string(outb)); m != nil && strings.HasPrefix(m[1], id+"/") {
+					seenAs := rf.Violation.Class
+					rf.Violation = Violation{Class: m[1], Detail: m[2] + " [the worker first saw this run fail as " + seenAs + "]"}
+					rf.LogHash = ""
+					writeJSONAtomic(path, rf)
+					if code, outb = replayChild(); code == 1 {
+						fmt.Printf("note: run %d fails as %s in a fresh process (the worker saw %s): history-dependent corruption of shared state\n", fv.Run, rf.Violation.Class, seenAs)
+					}
+				}
+			}
 			if code != 1 {
 				fmt.Printf("REPLAY-DIVERGED property=%s replay=%s exit=%d\n%s\n", id, path, code, tail(string(outb), 2000))
+				if nviol > 0 {
+					// other violations of this run were reproduced in fresh processes: report those; this one is
+					// kept out of the verdict because its replay file does not reproduce it
+					fmt.Printf("note: not reported (no reproducing replay file); %d reproduced violation(s) stand\n", nviol)
+					os.Remove(path)
+					continue
+				}
 				fatal2("fresh-process replay of %s did not reproduce the violation", path)
 			}
 			nviol++
